@@ -628,6 +628,12 @@ def zipNames (ns : List String) : Hdr := ns.zipIdx
 /-- the header name of column `i` -/
 def nameOf (h : Hdr) (i : Nat) : Option String := (h.find? (fun p => p.2 = i)).map (·.1)
 
+/-- `names = { i:h for h,i in first.headers.items() }`: column → header name, as EncodeRows / DropRows build it -/
+def posNames (h : Hdr) : List (Nat × String) := h.foldl (fun d p => dset d p.2 p.1) []
+
+/-- `names.get(i)` -/
+def posName (h : Hdr) (i : Nat) : Option String := dget (posNames h) i
+
 /-- DropRows: is column `i` (with header name `nm`) kept -/
 def keepCol (cols : List Key) (i : Nat) (nm : Option String) : Bool :=
   !cols.contains (.pos i) && (match nm with | some s => !cols.contains (.name s) | none => true)
@@ -636,7 +642,7 @@ def keepCol (cols : List Key) (i : Nat) (nm : Option String) : Bool :=
 def makeDropArgs (h? : Option Hdr) (n : Nat) (cols : List Key) : List Nat × Hdr × List Bool × Nat × Option Hdr :=
   match h? with
   | some h =>
-    let sel := h.zipIdx.map (fun p => keepCol cols p.2 (some p.1.1))       -- enumerate(first.headers)
+    let sel := (List.range n).map (fun i => keepCol cols i (posName h i))   -- fixes/C13-header-map-order.diff
     let idxs := compress (List.range n) sel
     let ext : Hdr := h.filterMap (fun p => (posOf idxs p.2).map (fun e => (p.1, e)))
     (idxs, h, sel, idxs.length, if h.isEmpty then none else some ext)
@@ -660,7 +666,7 @@ def encFor (m : List (Key × Enc)) (nm : Option String) (i : Nat) : Enc :=
 /-- EncodeRows(mapping).filter on dense rows: the encoder list built from the first row -/
 def encsOf (m : List (Key × Enc)) (r : DRow) : List Enc :=
   match r.headers with
-  | .ok h => h.zipIdx.map (fun p => encFor m (some p.1.1) p.2)      -- enumerate(first.headers)
+  | .ok h => (List.range r.len).map (fun i => encFor m (posName h i) i)    -- fixes/C13-header-map-order.diff
   | .error _ => (List.range r.len).map (fun i => encFor m none i)
 
 /-- DropRows.filter on dense rows: `make_drop_row_args(first, drop_cols)` -/
@@ -826,19 +832,14 @@ def baseS : SBase → SRow
 
 /-! ## the eager specification: plain lists / dicts, stage by stage -/
 
-/-- an eager dense row: the plain list, the column names (if the table has a header), the chosen label
-column, the `missing` flag of the source line (if the source provides one) -/
+/-- an eager dense row: the plain list, the header map name → column (a dict, in its own order; it may name only some of
+the columns), the chosen label column, the `missing` flag of the source line (if the source provides one) -/
 structure EagerD where
   cells : List Val
-  names : Option (List String)
+  hdr : Option Hdr
   lab : Option (Nat × Option String)
   miss : Option Bool
   deriving Repr
-
-/-- a header names every column exactly once -/
-def namesOK (ns : List String) (n : Nat) : Prop := ns.length = n ∧ ns.Nodup
-
-instance (ns : List String) (n : Nat) : Decidable (namesOK ns n) := by unfold namesOK; infer_instance
 
 /-- an eager sparse row: the dict, the chosen label key, the `missing` flag of the source line, and the header
 map raw key → name under which the table is currently keyed (empty when the keys are the raw keys) -/
@@ -849,9 +850,13 @@ structure EagerS where
   inv : KMap
   deriving Repr
 
+/-- a header map over `n` columns: distinct names, distinct columns, every column exists -/
+def hdrWF (h : Hdr) (n : Nat) : Bool :=
+  decide (h.map (·.1)).Nodup && decide (h.map (·.2)).Nodup && h.all (fun p => decide (p.2 < n))
+
 def hdrOK (hdr : Option (List String)) (n : Nat) : Bool :=
   match hdr with
-  | some ns => decide (namesOK ns n)
+  | some ns => hdrWF (zipNames ns) n
   | none => true
 
 def eagerBaseD : DBase → Res EagerD
@@ -859,32 +864,32 @@ def eagerBaseD : DBase → Res EagerD
   | .lazy v _ enc hdr miss =>
     if hdrOK hdr v.length then
       match enc with
-      | none => .ok ⟨v, hdr, none, some miss⟩
-      | some [] => .ok ⟨v, hdr, none, some miss⟩
+      | none => .ok ⟨v, hdr.map zipNames, none, some miss⟩
+      | some [] => .ok ⟨v, hdr.map zipNames, none, some miss⟩
       | some es =>
         if es.length = v.length then
           match sequence (List.zipWith lazyApply es v) with
-          | .ok cells => .ok ⟨cells, hdr, none, some miss⟩
+          | .ok cells => .ok ⟨cells, hdr.map zipNames, none, some miss⟩
           | .error e => .error e
         else .error .valueError
     else .error .valueError
   | .arff cols raw miss =>
-    if cols.length = raw.length ∧ namesOK (cols.map (·.name)) raw.length then
+    if cols.length = raw.length ∧ hdrWF (zipNames (cols.map (·.name))) raw.length = true then
       match sequence (List.zipWith lazyApply (cols.map (Col.enc false)) raw) with
-      | .ok cells => .ok ⟨cells, some (cols.map (·.name)), none, some miss⟩
+      | .ok cells => .ok ⟨cells, some (zipNames (cols.map (·.name))), none, some miss⟩
       | .error e => .error e
     else .error .valueError
 
 /-- the name of column `i` -/
 def EagerD.nameAt (e : EagerD) (i : Nat) : Option String :=
-  match e.names with
-  | some ns => ns[i]?
+  match e.hdr with
+  | some h => nameOf h i
   | none => none
 
 /-- the column with a given name -/
 def EagerD.colOf (e : EagerD) (s : String) : Option Nat :=
-  match e.names with
-  | some ns => posOf ns s
+  match e.hdr with
+  | some h => dget h s
   | none => none
 
 /-- by-name lookup on the eager row -/
@@ -907,12 +912,16 @@ def evalPredE (pred : Option Pred) (miss : Option Bool) (get : Key → Option Va
 def keptIdx (e : EagerD) (cols : List Key) : List Nat :=
   (List.range e.cells.length).filter (fun i => keepCol cols i (e.nameAt i))
 
+/-- the header map after dropping columns: the entries of the kept columns, renumbered, in the map's own order -/
+def extHdr (idxs : List Nat) (h : Hdr) : Hdr := h.filterMap (fun p => (posOf idxs p.2).map (fun j => (p.1, j)))
+
 def eagerStageD : Stage → EagerD → Res (Option EagerD)
   | .headNames ns, e =>
-    if namesOK ns e.cells.length then .ok (some { e with names := some ns }) else .error .valueError
+    if hdrWF (zipNames ns) e.cells.length then .ok (some { e with hdr := some (zipNames ns) }) else .error .valueError
   | .headMap m, e =>
-    if m.map (·.2) = (List.range e.cells.length).map Key.pos ∧ namesOK (m.map (·.1)) e.cells.length then
-      .ok (some { e with names := some (m.map (·.1)) })
+    -- any mapping name → column: in any order, for all or only some of the columns
+    if (m.filterMap hdrEntry).length = m.length ∧ hdrWF (m.filterMap hdrEntry) e.cells.length = true then
+      .ok (some { e with hdr := some (m.filterMap hdrEntry) })
     else .error .valueError
   | .encodeSeq es, e =>
     if es.length = e.cells.length then
@@ -938,7 +947,7 @@ def eagerStageD : Stage → EagerD → Res (Option EagerD)
         | none => .error .keyError          -- the label column itself was dropped
         | some lab =>
           .ok (some { cells := idxs.filterMap (fun i => e.cells[i]?),
-                      names := e.names.map (fun ns => idxs.filterMap (fun i => ns[i]?)),
+                      hdr := e.hdr.map (extHdr idxs),
                       lab := lab, miss := e.miss })
   | .label k t, e =>
     match (match k with
@@ -958,11 +967,11 @@ def eagerD : List Stage → EagerD → Res (Option EagerD)
     | .ok none => .ok none
     | .ok (some e') => eagerD rest e'
 
-/-- the features part: the row without its label column -/
+/-- the features part: the row without its label column, the header map without the label's name and renumbered -/
 def EagerD.feats (e : EagerD) : Option EagerD :=
   match e.lab with
   | none => none
-  | some (i, _) => some ⟨e.cells.eraseIdx i, e.names.map (·.eraseIdx i), none, e.miss⟩
+  | some (i, _) => some ⟨e.cells.eraseIdx i, e.hdr.map (DRow.shiftHdr i), none, e.miss⟩
 
 def EagerD.labelVal (e : EagerD) : Option Val :=
   match e.lab with
@@ -1139,7 +1148,7 @@ def eagerObsD (e : EagerD) : Acc → Obs
   | .iter => .vals e.cells
   | .copy => .vals e.cells
   | .len => .nat e.cells.length
-  | .headers => match e.names with | some ns => .hdr (zipNames ns) | none => .err
+  | .headers => match e.hdr with | some h => .hdr h | none => .err
   | .eq (.list o) => .bool (e.cells.length == o.length && (List.zipWith pyEq e.cells o).all id)
   | .eq (.dict _) => .undef
   | .keys => .undef
